@@ -141,7 +141,7 @@ CHECKS = {
     },
     "C08": {
         "text": ("Lean theorems (unbounded): bytes sent for a finished id are the same in any two runs of the sender LTS (sent_bytes_schedule_independent); "
-                 "stored bytes depend only on the per-id payload sequence (stored_bytes_schedule_independent); the change/request/notification set is a function "
+                 "stored bytes depend only on the per-id payload sequence (stored_bytes_schedule_independent); two complete receiver runs over the same change computation requested the same ids (request_set_schedule_independent); the change/request/notification set is a function "
                  "of the two listings (change_set_is_a_function). Correspondence: each transfer is repeated under K seeded schedules (capacity 0..64, delays, "
                  "read splits, GOMAXPROCS 1..16) with an overlap detector that holds every SendMsg/RecvMsg open; final tree, REQ set, notification set with "
                  "digests must coincide across schedules and with the Lean model; overlap count must be 0; the same schedules are executed by a harness "
@@ -165,7 +165,7 @@ CHECKS = {
     "C07": {
         "text": ("Lean theorems (unbounded): in every reachable state of the receiver LTS requests are needed ids, announced before requested, at most once; "
                  "terminators only for requested ids; FIN only after the end marker and all terminators (receiver_protocol); stored bytes = concatenation of the "
-                 "payloads received, any chunking/interleaving (stored_is_concat); a terminator is accepted at most once per id (terminator_once_per_id); nothing after FIN in an accepted log is a request or a second FIN (fin_is_the_last_send). The LTS is the acceptor of real Receive event logs against an independent "
+                 "payloads received, any chunking/interleaving (stored_is_concat); a terminator is accepted at most once per id (terminator_once_per_id); nothing after FIN in an accepted log is a request or a second FIN (fin_is_the_last_send); at FIN the requested ids are exactly the needed ones (requests_are_exactly_the_needed_ids). The LTS is the acceptor of real Receive event logs against an independent "
                  "reference sender; needed ids come from the Lean change computation; the destination (also at the moment FIN is seen) is compared with what was sent."),
         "note": ("Trusted: Lean kernel + standard axioms; bytes compared by content hash in the harness; schedules = those produced by seeded capacities, "
                  "chunkings and interleavings."),
